@@ -112,6 +112,12 @@ def run(chk):
             d = A.diff_analysis(o, m, compare_hovers=True)
             if d:
                 dis.append((c, {k: o.get(k) for k in ("diags", "symbols", "checkPanic", "symbolsPanic")}, m, d))
+    # where the parse diagnostics are: lexer errors and candidate positions of syntax errors (Model/LexAll.lean)
+    import lex_model
+    ldis, lstats = lex_model.compare([c["script"] for c in cases], gos)
+    stats.update(lstats)
+    stats["model_comparisons"] += lstats["lexer_model_comparisons"]
+    dis += ldis
     for c, go, m, why in fails[:10]:
         chk.violation("oracle", case={"script": c["script"]}, go=go, model=m, oracle=why)
     if not fails:
